@@ -69,7 +69,7 @@ StepOf(e) == CASE e.ev = "WRecvBootstrap" -> WRecvBootstrap(e.arg)
                [] e.ev = "Skip" -> UNCHANGED view       \* a message the model does not describe (mechanic): changes nothing modelled
                [] OTHER -> FALSE
 
-L1Clauses == {"Barrier", "AtMostOnce", "ExactlyOnceAtEnd", "CompleteOnce", "CompletedByNamed", "CompletedByEnds", "NoCrossElementCut",
+L1Clauses == {"Barrier", "AtMostOnce", "ExactlyOnceAtEnd", "CompleteOnce", "CompletedByNamed", "CompletedByEnds", "NoSpuriousFailure", "NoCrossElementCut",
               "NoStall", "NoHang", "SampleConservation", "AllSamplesAtRaceControl", "OnlyFullQueueDrops", "FinalRecords",
               "FaultNeverSuccess", "NoResultsOnFailure", "CancelNoResults", "FaultReported"}
 
@@ -97,6 +97,7 @@ Holds(c, e) ==
       [] c = "CompleteOnce" -> CompleteOnce'
       [] c = "CompletedByNamed" -> CompletedByNamed'
       [] c = "CompletedByEnds" -> CompletedByEnds'
+      [] c = "NoSpuriousFailure" -> NoSpuriousFailure'
       [] c = "NoCrossElementCut" -> NoCrossElementCut'
       [] c = "NoStall" -> NoStall'
       [] c = "NoHang" -> e.ev # "Hang"
@@ -133,7 +134,9 @@ Consume ==
          /\ Bind(scn, e.st)
          /\ act' = ActRec(e)
          /\ LET l1 == {c \in L1Clauses : ~Holds(c, e)}
-                l2 == e.ev = "Hang" \/ StepOf(e)
+                \* skipL2: events on whose recorded state TLC could not evaluate the action formula (outside the model's domain);
+                \* the harness counts them as L2 failures, L1 is still judged on them and on everything after them
+                l2 == e.ev = "Hang" \/ (\E i \in 1..Len(Traces[tid].skipL2) : Traces[tid].skipL2[i] = l) \/ StepOf(e)
             IN /\ \A c \in l1 : PrintT(<<"V", Traces[tid].id, l, "L1", {c}>>)
                /\ IF l2 THEN TRUE ELSE PrintT(<<"V", Traces[tid].id, l, "L2", {e.ev}>>)
     /\ l' = l + 1 /\ nev' = nev + 1 /\ tid' = tid
